@@ -35,6 +35,22 @@ func LitString(astText string) (string, error) {
 	return strconv.Unquote(sb.String())
 }
 
+// EnumNumber is the number of an enum member: explicit, or previous+1 from 0.
+func EnumNumber(e *idl.Enum, ev *idl.EnumValue) int64 {
+	prev := int64(-1)
+	for _, x := range e.Values {
+		v := prev + 1
+		if x.Explicit {
+			v = x.Value
+		}
+		if x == ev {
+			return v
+		}
+		prev = v
+	}
+	return ev.Value
+}
+
 // Zero is the zero value of a type as the generated Go code has it.
 func Zero(t *idl.Type) *Val {
 	t = t.Final()
@@ -80,7 +96,7 @@ func Eval(t *idl.Type, v *idl.Value) (*Val, error) {
 			}
 			return Int(0), nil
 		case idl.VEnumRef:
-			return Int(v.EV.Value), nil
+			return Int(EnumNumber(v.Enum, v.EV)), nil
 		}
 	case idl.Double:
 		switch v.K {
@@ -106,7 +122,7 @@ func Eval(t *idl.Type, v *idl.Value) (*Val, error) {
 		case idl.VInt:
 			return Int(v.Int), nil
 		case idl.VEnumRef:
-			return Int(v.EV.Value), nil
+			return Int(EnumNumber(v.Enum, v.EV)), nil
 		}
 	case idl.List, idl.Set:
 		if v.K == idl.VList {
@@ -197,7 +213,7 @@ func Domain(t *idl.Type, depth int, rich bool) []*Val {
 	case idl.EnumK:
 		var out []*Val
 		for _, ev := range t.Enum.Values {
-			out = append(out, Int(ev.Value))
+			out = append(out, Int(EnumNumber(t.Enum, ev)))
 		}
 		out = append(out, Int(1234)) // undeclared
 		if !rich && len(out) > 2 {
